@@ -310,7 +310,7 @@ theorem diffMapObj_sound (before after all : List Op) (obj : ObjId) (es : MapEnt
     rw [List.map_flatMap]
     congr 1
     funext k
-    show (match mapDiff (diffItemsOf before after all obj k) with | some o => mapPatchOf k o | none => []).map (·.1) = _
+    show (match mapDiff (diffItemsOf before after all obj k) with | some o => mapPatchOf k o | none => []).map (fun (p : PatchAction × OpId) => p.1) = _
     cases hm : mapDiff (diffItemsOf before after all obj k) with
     | none => simp [evs, items, hm, eventActions]
     | some o => simp [evs, items, hm, mapPatchOf_actions]
